@@ -1928,7 +1928,16 @@ insert_list:
         auto& counter = CURRENT->semaphore_count;
         counter = count;
         DEFER(counter = 0);
+        bool resumed = false;
         while (!try_subtract(count)) {
+            if (resumed) {
+                // resumed by signal(), but another wait() took the tokens on
+                // its fast path before this thread ran: what is left may still
+                // cover a waiter that nobody is going to resume otherwise
+                uint64_t cnt = m_count.load();
+                if (cnt) try_resume(cnt);
+            }
+            resumed = true;
             int ret = waitq::wait_defer(timeout, spinlock_unlock, &splock);
             splock.lock();  // assuming errno NOT changed
             if (unlikely(ret < 0)) {    // got interrupted
